@@ -685,7 +685,7 @@ def c18_jobs(tier):
 PROPS = {
     "C18": dict(jobs=c18_jobs, level="other", claim="Interleavings are not explored (a hand-written symbolic executor for Go has no scheduler model). What is decided, by the same engine on every feasible path of a selection of all other properties' jobs (encode, decode, protect, unprotect, key derivation, Diffie-Hellman, transform mapping, EAP processing, random number generation, builders), is the frame condition from which race freedom of independent operations follows: no write (Store, MapUpdate, in-place append, stub-declared write) targets an object reachable from package-level state after init, and decoders do not write into their input buffer (also asserted as 'input unchanged' in the C04 harnesses). Operations whose write sets contain only their own objects commute in every schedule.",
                 explanation="Frame condition (no write to shared package-level state, no write to input buffers) checked symbolically on every path of the selected jobs; schedules, GOMAXPROCS and the Go memory model are outside the claim. A violation is confirmed natively by running the same harness on four goroutines under the race detector.",
-                bounds=lambda t: "every %s job of the quick tables of C01, C03, C04, C07-C11, C14-C17, C19, C20 with the write monitor on" % ("k-th (k between 1 and 25, see lib/props.py)" if t == "quick" else "single"),
+                bounds=lambda t: ("every %s job of the quick tables of C01, C03, C04, C07-C11, C14-C17, C19, C20 with the write monitor on" % ("k-th (k between 1 and 25, see lib/props.py)" if t == "quick" else "single")) + ('; String() of every type code and the refusing GetAttr / SetAttr paths' if t == "quick" else '; String() of every type code and the refusing GetAttr / SetAttr paths'),
                 outside="schedules and interleavings themselves; crypto/rand.Reader and the read-only registries are trusted to be safe for concurrent use (documented by the standard library / never written after init, which is what the monitor checks)",
                 technique="frame-condition checking by bounded symbolic execution of the real Go code (write monitor over go/ssa -> SMT paths); counterexamples confirmed with the race detector",
                 note="Level 'other': race freedom is inferred from a decided frame condition, not from exploring schedules."),
@@ -709,7 +709,7 @@ PROPS = {
                 outside="longer byte strings; a panic inside Encode of a decoded value would be reported as a panic violation (none found)"),
 
     "C17": dict(jobs=c17_jobs, claim="Inductive step instead of exploring histories: the SA key object starts in an arbitrary reachable state (every keyed-hash object with arbitrary octets already written - the HMAC buffer is the objects' only state and any content is reachable through a previous rejected message; ciphers satisfying the representation invariant) and one operation - protect as either role, unprotect a genuine message, reject an arbitrary datagram with invalid ICV, derive Child SA keys - must give the result a fresh object gives (accepted by / accepting a fresh peer, payloads equal, forged still rejected and the cipher not reached, keys equal to the specification), and must re-establish the invariant, which covers operation sequences of any length; two-operation sequences are run explicitly as a cross-check.",
-                bounds=lambda t: "9 suites, both roles, junk lengths %s, messages of 0..1 payloads (thorough: also SA+Notify, EAP); rejected datagrams of %s octets" % (("{0,1,7}", "12 lengths in 0..96") if t == "quick" else ("{0,1,7,8,63,64,65}", "every length 0..112")),
+                bounds=lambda t: ("9 suites, both roles, junk lengths %s, messages of 0..1 payloads (thorough: also SA+Notify, EAP); rejected datagrams of %s octets" % (("{0,1,7}", "12 lengths in 0..96") if t == "quick" else ("{0,1,7,8,63,64,65}", "every length 0..112"))) + ('; Child derivation for all 36 (PRF, encryption, integrity) suites on a used PRF object; concrete histories of 34 / 40 / 64 operations (3 suites)' if t == "quick" else '; Child derivation for all 36 (PRF, encryption, integrity) suites on a used PRF object; concrete histories of 40 / 64 operations (9 suites)'),
                 outside="states of the cipher objects that violate the invariant (Iv / Padding set by the caller: these exported fields are a test hook of the library, not reachable through its operations)",
                 assumptions=CRYPTO_ASSUME),
 
@@ -722,22 +722,22 @@ PROPS = {
                 assumptions=CRYPTO_ASSUME),
 
     "C07": dict(jobs=c07_jobs, claim="For all 27 (encryption key size, integrity, PRF) combinations and each (nonce, secret) length pair in the bound, for all octet values and SPIs: the seven SK_* values equal the consecutive slices of an independently written prf+ over an independently written SKEYSEED, with lengths from an independent RFC table; every ready-made PRF / integrity / cipher object is keyed with exactly those keys (probed through its public interface); two parties deriving from the same inputs hold identical keys and what one protects the other unprotects, in both directions.",
-                bounds=lambda t: "nonce / shared-secret lengths from %s; probe message 5 octets" % ("{1,2,15,16,17,32,64} (3 pairs per combination)" if t == "quick" else "1..64 and {128,256,512}"),
+                bounds=lambda t: ("nonce / shared-secret lengths from %s; probe message 5 octets" % ("{1,2,15,16,17,32,64} (3 pairs per combination)" if t == "quick" else "1..64 and {128,256,512}")) + ('; Ni|Nr of 63, 64, 65, 240, 257, 300, 480, 496, 512 octets (one suite per PRF); a second derivation on the same object (9 suites); arguments passed as views of larger guarded buffers' if t == "quick" else '; Ni|Nr of 63, 64, 65, 240, 257, 300, 480, 496, 512 octets (one suite per PRF); a second derivation on the same object (9 suites); arguments passed as views of larger guarded buffers'),
                 outside="other lengths up to 512 (these buffers are only appended and hashed); the Diffie-Hellman step itself is C09",
                 assumptions=CRYPTO_ASSUME + ["HNewIKESAKey: Diffie-Hellman values are taken from the library's own group functions (decided by C09), public and shared values assumed without leading zero octet, exponent rejection loop unwound twice"]),
     "C08": dict(jobs=c08_jobs, claim="For all PRFs x ESP key sizes x {none, MD5-96, SHA1-96, SHA2-256-128} and nonce lengths in the bound, for all SK_d and nonce octets: the four Child SA keys equal consecutive slices of the independent prf+(SK_d, Ni|Nr) in the prescribed order. Histories are decided by an inductive step: the IKE SA's Prf_d starts with arbitrary octets already written (any state an earlier use can leave, since the only state is the HMAC buffer) and the keys must still equal the specification, and a second derivation on the same object gives them again.",
-                bounds=lambda t: "nonce lengths %s and {256,300,512}, junk already in the PRF object %s octets; key objects from a struct literal and from NewChildSAKeyByProposal" % (("{0,1,16,32}", "{0,5}") if t == "quick" else ("0..32 and 64", "{0,1,8,63,64,65}")),
+                bounds=lambda t: ("nonce lengths %s and {256,300,512}, junk already in the PRF object %s octets; key objects from a struct literal and from NewChildSAKeyByProposal" % (("{0,1,16,32}", "{0,5}") if t == "quick" else ("0..32 and 64", "{0,1,8,63,64,65}"))) + ('; further nonce lengths {63,64,65,230,240,255}; a third derivation with the largest suite and the same nonce; IKE SA objects with only Prf_d, and with all descriptors set; keys extended by the caller afterwards' if t == "quick" else '; further nonce lengths {63,64,65,230,240,255}; a third derivation with the largest suite and the same nonce; IKE SA objects with only Prf_d, and with all descriptors set; keys extended by the caller afterwards'),
                 outside="other nonce lengths", assumptions=CRYPTO_ASSUME),
     "C16": dict(jobs=c16_jobs, claim="For each (|IK'|, |CK'|, |identity|) in the bound and all octet values (arbitrary, also non-ASCII identity octets): the five derived keys equal octets 0-15, 16-47, 48-79, 80-143, 144-207 of an independently written PRF'(IK'|CK', \"EAP-AKA'\"|identity) over the same uninterpreted HMAC-SHA-256; empty IK' or CK' is refused.",
-                bounds=lambda t: "key lengths %s, identity lengths %s" % (("{1,16,17,32,64}", "{0,1,15,16,64,255}") if t == "quick" else ("1..64", "0..255")),
+                bounds=lambda t: ("key lengths %s, identity lengths %s" % (("{1,16,17,32,64}", "{0,1,15,16,64,255}") if t == "quick" else ("1..64", "0..255"))) + ('; two calls in a row (4 length tuples, among them ones whose concatenated inputs can coincide)' if t == "quick" else '; two calls in a row (4 length tuples, among them ones whose concatenated inputs can coincide)'),
                 outside="other length combinations", assumptions=CRYPTO_ASSUME),
 
     "C06": dict(jobs=c06_jobs, claim="(a) RFC 7296 3.14 stated as a predicate over the real EncodeEncrypt output, using the same uninterpreted E/D/H: header fields, next payload 46, both length fields final, SK next = first inner payload, IV, positive whole number of blocks, textbook-CBC decryption under the sender-direction key gives chain || pad || pad length where the strict reference parser turns the chain into exactly the original payloads, ICV = truncated HMAC under the sender-direction integrity key over everything before it. (b) messages built by the independent implementation with every legal pad length (all p <= 255 compatible with the block size) and arbitrary pad octets and IV are accepted and decoded to the original payloads.",
-                bounds=lambda t: "9 suites x 2 directions; message shapes: empty, one and two payloads at generator tier 0" + ("" if t == "quick" else ", every payload kind alone"),
+                bounds=lambda t: ("9 suites x 2 directions; message shapes: empty, one and two payloads at generator tier 0" + ("" if t == "quick" else ", every payload kind alone")) + ('; inner chains with 300 data octets per payload (3 suites); unsupported payloads inside the encrypted chain of a reference message (2 suites)' if t == "quick" else '; inner chains with 300 / 1000 data octets per payload (9 suites); unsupported payloads inside the encrypted chain of a reference message (9 suites)'),
                 outside="larger messages", assumptions=CRYPTO_ASSUME,
                 trusted=["reference codec and reference protect in the harness (RFC layouts, DESIGN.md Appendix A)"]),
     "C10": dict(jobs=c10_jobs, claim="For every key size and every plaintext length in the bound, for all key and plaintext octets and every outcome of the random source: size law, textbook CBC structure (plaintext || pad || pad length) under the reference block primitive, IV equal to a 16-octet string delivered by the random source during that very call (also for a second call on the same object), inverse, no state kept in the cipher object; an injected failure of the random source at either read gives an error and no ciphertext; every key length 0..64 other than the negotiated one is refused; Decrypt on every ciphertext length 0..96 with arbitrary content (all 256 recovered pad-length octets) returns a value of a consistent length or an error, never panics.",
-                bounds=lambda t: "plaintext lengths %s; ciphertext lengths 0..%d; key lengths 0..64; fault at read 1, 2, 3" % (("0..64", 96) if t == "quick" else ("0..129 and {255..257, 1023..1025, 4095, 4096}", 128)),
+                bounds=lambda t: ("plaintext lengths %s; ciphertext lengths 0..%d; key lengths 0..64; fault at read 1, 2, 3" % (("0..64", 96) if t == "quick" else ("0..129 and {255..257, 1023..1025, 4095, 4096}", 128))) + ('; cipher texts of 1552, 1568, 4112 octets and plaintexts 17 shorter; pairs of objects whose keys share their first 16 octets (9 pairs)' if t == "quick" else '; cipher texts of 512 .. 4112 octets (7 sizes) and plaintexts 17 shorter; pairs of objects whose keys share their first 16 octets (9 pairs)'),
                 outside="other plaintext lengths up to 4096 (the code is length-generic: one more CBC block per 16 octets)", assumptions=CRYPTO_ASSUME),
 
     "C02": dict(jobs=c02_jobs, claim="Structural obligations decided for every datagram of every length up to the bound, all keys, both roles: (O2) success through the SK branch implies that the last ICV octets equal the truncated HMAC under the sender-direction key over everything before them (hash, length and key direction from an independent table); (O3) at every cipher call that same formula is already implied by the path condition, i.e. ciphertext never reaches the cipher unauthenticated; (O4) otherwise no key is applied and the result equals plain Decode. On genuine messages: every single-octet edit at every position, every proper prefix, extensions, reflection and foreign keys are refused with an error under the ideal-MAC reading (a modified or misdirected message never carries a valid ICV), except an alteration of the first-payload type. Never crashing (O1) is shared with C04.",
@@ -747,19 +747,19 @@ PROPS = {
                 trusted=["native confirmation of O2/O3 counterexamples uses a spying hash object in the SA's public interface fields to learn the checksum the code expects, writes it into the datagram and re-presents it with the real HMAC"]),
 
     "C05": dict(jobs=c05_jobs, claim="Both directions against an independently written RFC 7296 / RFC 3748 / RFC 4187 codec executed by the same engine: the strict reference parser accepts every library encoding and recovers exactly the encoded fields; the library decodes every datagram of the liberal reference encoder (symbolic reserved bits, critical flags, three transform orders) to the fields it was built from - for all field values of each shape. The reference's own round-trip lemma is discharged too.",
-                bounds=lambda t: "generator shapes of tier %s per payload kind, 15 (quick) / 225 (thorough) ordered pairs at minimal shape, transform orders {grouped, reversed, rotated}" % ("1" if t == "quick" else "2"),
+                bounds=lambda t: ("generator shapes of tier %s per payload kind, 15 (quick) / 225 (thorough) ordered pairs at minimal shape, transform orders {grouped, reversed, rotated}" % ("1" if t == "quick" else "2")) + ('; three payloads with 600 data octets each (strict parse and liberal decode)' if t == "quick" else '; three payloads with 600 / 2000 data octets each (strict parse and liberal decode)'),
                 outside="larger shapes; interleavings of more than 3 transforms beyond reverse/rotate",
                 trusted=["the reference codec in harness/message/zz_verif_ref.go and harness/eap/zz_verif_ref.go (written from the RFC layouts; its own lemma Parse(Encode(m)) == m is checked)"]),
     "C13": dict(jobs=c13_jobs, claim="For each base message shape and every one or two insertion positions, a solver-decided statement over a symbolic unsupported type code (all of 1..32, 49..255 at once), symbolic flags and body: non-critical => decodes exactly as the base message; critical => error; critical/reserved bits on implemented payloads are ignored.",
-                bounds=lambda t: "base messages of 0..2 (quick) / 0..3 (thorough) payloads, one or two insertions at every position, body lengths {0,1,8%s}" % ("" if t == "quick" else ",1024"),
+                bounds=lambda t: ("base messages of 0..2 (quick) / 0..3 (thorough) payloads, one or two insertions at every position, body lengths {0,1,8%s}" % ("" if t == "quick" else ",1024")) + ('; 1024-octet insertions into a message carrying 1000 data octets; insertions in front of and inside the encrypted chain of a protected message (3 suites)' if t == "quick" else '; 1024-octet insertions into a message carrying 1000 / 3000 data octets; insertions in front of and inside the encrypted chain of a protected message (9 suites)'),
                 outside="body lengths other than those listed (the body is only skipped by length), more than two insertions"),
     "C20": dict(jobs=c20_jobs, claim="Decided on the engine's heap: after Decode / DecodeDecrypt the receive buffer (including spare capacity) is overwritten with fresh symbolic octets and every payload field must still equal its snapshot for all values (an aliased field would read the fresh symbols); Encode leaves all payload fields unchanged, does not reference the returned buffer, and two encodings are identical under the explored map iteration orders; EncodeEncrypt changes only the payload list and header bookkeeping.",
-                bounds=lambda t: "every payload kind alone and 15 pairs at generator tier 0/1; arbitrary accepted datagrams up to %d octets; protect/unprotect for %s suites" % ((36, 3) if t == "quick" else (38, 9)),
+                bounds=lambda t: ("every payload kind alone and 15 pairs at generator tier 0/1; arbitrary accepted datagrams up to %d octets; protect/unprotect for %s suites" % ((36, 3) if t == "quick" else (38, 9))) + ("; values of 300 octets (CP, CERT, Notify, Vendor ID); every payload kind through one of the three secondary decoder entry points; proposals whose transform containers are views of shared arrays; EAP packets of every type-data kind with an arbitrary code octet; decoded-then-extended EAP-AKA' packets under all map orders" if t == "quick" else "; values of 300 octets (CP, CERT, Notify, Vendor ID); every payload kind through all three secondary decoder entry points; proposals whose transform containers are views of shared arrays; EAP packets of every type-data kind with an arbitrary code octet; decoded-then-extended EAP-AKA' packets under all map orders"),
                 outside="larger messages; map iteration orders other than those listed in the evidence for maps of more than 3 entries", assumptions=CRYPTO_ASSUME),
 
-    "C01": dict(jobs=c01_jobs, claim="For every suite, sender role and header mode, and every message shape within the bounds, the solver shows that unprotecting a protected message returns the original header fields and payloads for all field values, all key octets and all outcomes of the random IV and padding; the no-key path equals plain encode/decode. Bounded model checking is the right level: the code is straight-line byte arithmetic around opaque primitives, and the quantifier (all keys, all randomness) cannot be sampled.", bounds=lambda t: "9 suites x 2 sender roles x header {nil, parsed}; messages of 0, 1 and 2 payloads at minimal shape (tier 0 generator)" + ("" if t == "quick" else "; every payload kind alone and in 15 ordered pairs"),
+    "C01": dict(jobs=c01_jobs, claim="For every suite, sender role and header mode, and every message shape within the bounds, the solver shows that unprotecting a protected message returns the original header fields and payloads for all field values, all key octets and all outcomes of the random IV and padding; the no-key path equals plain encode/decode. Bounded model checking is the right level: the code is straight-line byte arithmetic around opaque primitives, and the quantifier (all keys, all randomness) cannot be sampled.", bounds=lambda t: ("9 suites x 2 sender roles x header {nil, parsed}; messages of 0, 1 and 2 payloads at minimal shape (tier 0 generator)" + ("" if t == "quick" else "; every payload kind alone and in 15 ordered pairs")) + ('; same-kind pairs (5 kinds) and multi-element payloads (generator tier 1: TS, CP, EAP, Delete); one Nonce payload of 32767 / 32768 / 40000 / 65535 octets without keys and 40000 with keys, 65536 and 70000 refused' if t == "quick" else '; same-kind pairs (15 kinds) and multi-element payloads (generator tier 1 incl. SA); one Nonce payload of 32767 / 32768 / 40000 / 65535 octets without keys and 40000 with keys, 65536 and 70000 refused'),
                 outside="longer data, more than two payloads, larger nested shapes", assumptions=CRYPTO_ASSUME),
-    "C03": dict(jobs=c03_jobs, claim="For every message shape within the bounds the solver shows Decode(Encode(m)) == m field by field for all field values at once (all 2^16 attribute types, all SPI contents, all ports and addresses), which pinned vectors cannot cover.", bounds=lambda t: "every payload kind alone at the %s shape set of the generator, the empty message, %s ordered pairs at minimal shape, EAP methods, EAP-AKA' attribute subsets of size %s" % (("quick", "15", "<= 2") if t == "quick" else ("thorough", "225", "<= 7")),
+    "C03": dict(jobs=c03_jobs, claim="For every message shape within the bounds the solver shows Decode(Encode(m)) == m field by field for all field values at once (all 2^16 attribute types, all SPI contents, all ports and addresses), which pinned vectors cannot cover.", bounds=lambda t: ("every payload kind alone at the %s shape set of the generator, the empty message, %s ordered pairs at minimal shape, EAP methods, EAP-AKA' attribute subsets of size %s" % (("quick", "15", "<= 2") if t == "quick" else ("thorough", "225", "<= 7"))) + ('; per payload kind with a single data field: one payload of about 32 k or 40 k octets, the largest that fits the 16-bit length and one beyond (refused)' if t == "quick" else '; per payload kind with a single data field: payloads of 32763, 32764, 40000 octets, the two largest that fit the 16-bit length, one beyond and 70000 (refused)'),
                 outside="opaque data longer than 24 octets, more than 2 payloads, more than 2 proposals / 3 transforms / 3 selectors (thorough: also the 255-selector TS payloads)"),
     "C04": dict(jobs=c04_jobs, claim="Every decoding entry point (ParseHeader, IKEMessage.Decode, the payload chain walker with a symbolic first type, each of the 16 payload body decoders, EAP.Unmarshal and the five EAP method bodies, DecodeDecrypt with and without keys and with the header nil or parsed from the same bytes, IKECrypto.Decrypt) is executed symbolically on an arbitrary buffer of every length up to the bound, with symbolic spare capacity behind it; every index, slice, make, nil and type-assertion obligation, the no-over-read obligation (no re-slice of the input beyond its length), 'input unchanged afterwards' and, per input-consuming loop, either an unwinding assertion (unrolled) or a strictly decreasing variant (one iteration from an arbitrary loop-head state: cut mode) is discharged by the solver for all contents.",
                 bounds=lambda t: ("cut mode (chain walker, SA proposals / transforms, TS selectors, CP attributes, EAP-AKA' attributes): every length 0..%d; loops unrolled: bodies 0..%d (SA 0..%d, TS 0..%d, CP 0..%d, EAP / EAP-AKA' 0..%d), header 0..40, whole message 0..%d, chain 0..%d; cipher 0..%d and 1568 (thorough also 1040, 4112) for 3 key sizes; unprotection with keys: Encrypted payload spanning the datagram 0..%d octets (%s suites, both roles, inner chain in cut mode; the same behind a skipped payload of 4 or 13 octets), arbitrary chains 0..36; without keys 0..36 unrolled and 28..%d cut"
